@@ -120,7 +120,16 @@ def run_tlc(module: str, cfg: str, *, workdir: str, env: dict | None = None, wor
     e.update(env or {})
     t0 = time.time()
     try:
-        p = subprocess.run(cmd, cwd=SPEC, env=e, capture_output=True, text=True, timeout=timeout)
+        for attempt in range(3):
+            p = subprocess.run(cmd, cwd=SPEC, env=e, capture_output=True, text=True, timeout=timeout)
+            # a JVM that was killed from outside or could not get memory (many JVMs side by side, other jobs on the
+            # machine) says nothing about the specification: wait and run the same command again, at most twice
+            starved = p.returncode in (-9, 137) or "insufficient memory" in p.stdout + p.stderr \
+                or "Cannot allocate memory" in p.stdout + p.stderr or "unable to create native thread" in p.stdout + p.stderr
+            if not starved or attempt == 2:
+                break
+            shutil.rmtree(meta, ignore_errors=True)
+            time.sleep(45 * (attempt + 1))
     except subprocess.TimeoutExpired as ex:
         raise MachineryError(f"TLC timeout after {timeout}s on {module} ({tag})") from ex
     finally:
